@@ -510,10 +510,26 @@ pub fn gen_case_c02(rng: &mut Rng) -> Value {
         }
         ops
     }
+    // twins: two ids bound to the SAME route (same innermost bucket, same static path or pattern), a batch operation on
+    // unrelated ids, then single removals: per-bucket counters must survive a batch_remove that does not touch them
+    let mut routes = routes;
+    let mut twin_probe: Option<Value> = None;
+    if rng.chance(1, 3) {
+        let src = routes.iter().find(|r| r["id"] == json!("r0")).unwrap().clone();
+        for r in routes.iter_mut() { if r["id"] == json!("r1") { let mut t = src.clone(); t["id"] = json!("r1"); *r = t; } }
+        let (i0, i1) = (idx_of("r0", &routes, rng), idx_of("r1", &routes, rng));
+        ops.push(json!({"op": "ins", "r": i0})); ops.push(json!({"op": "ins", "r": i1}));
+        ops.push(if rng.chance(1, 2) { json!({"op": "batch", "ids": ["absent"]}) } else { json!({"op": "change", "added": [], "updated": [], "removed": ["absent"]}) });
+        ops.push(json!({"op": "rem", "id": "r0"}));
+        live.push("r1".to_string());
+        if rng.chance(1, 2) { ops.push(json!({"op": "rem", "id": "r1"})); live.clear(); }
+        twin_probe = Some(src);
+    }
     let nops = 2 + rng.below(12);
     ops.extend(gen_ops(rng, nops, &mut live, &routes, nids, 0, &idx_of));
     let mut probes: Vec<Value> = (0..4).map(|_| gen_probe(rng)).collect();
-    let mut routes = routes;
+    // a probe that the twins accept (as far as the probe vocabulary allows): their own path and host
+    if let Some(t) = &twin_probe { if let Some(p) = probes.get_mut(0) { if let Some(x) = t.get("path") { if x.is_string() { p["path"] = x.clone(); } } if let Some(h) = t.get("host") { if h.is_string() { p["host"] = h.clone(); } } } }
     if rng.chance(1, 4) { header_focus(rng, &mut routes, &mut probes); }
     let cfg = if rng.chance(1, 2) { json!({"ic_host": rng.chance(2, 3), "ic_path": rng.chance(2, 3), "ic_header": false, "always": rng.chance(1, 2)}) } else { gen_cfg(rng) };
     json!({"cfg": cfg, "routes": routes, "ops": ops, "probes": probes, "trace": false})
